@@ -16,7 +16,7 @@ Everything here works on `ast` only -- nothing imports or runs SQLAlchemy.
 * `Free`   an unconstrained input discovered while executing (an attribute chain of `self` / a parameter that the
            model did not define).  When a Free value is used as a number / truth value / length it takes its
            value from the current *scenario* (`Conc.free_value`), in the order of first use.
-* `slice_function`  program slice of a function body with respect to a set of relevant locals and a target loop
+* `path_to` / `relevant_closure` / `prune`  program slice of a function body w.r.t. a set of relevant locals and a target loop
            (statements that neither bind relevant locals nor contain the target are dropped; `if` statements on the
            way to the target are replaced by the arm that leads to it).
 """
